@@ -8,6 +8,8 @@
 mod common;
 mod driver;
 mod findings;
+mod libtier;
+mod model;
 mod gen;
 mod minimise;
 mod outparse;
@@ -18,6 +20,7 @@ mod world;
 mod props {
     pub mod c01;
     pub mod c02;
+    pub mod c03;
     pub mod c17;
     pub mod c19;
 }
@@ -95,6 +98,7 @@ fn main() {
         match cmd {
             "C01" => props::c01::replay(&env, &v.replay),
             "C02" => props::c02::replay(&env, &v.replay),
+            "C03" => props::c03::replay(&env, &v.replay),
             "C17" => props::c17::replay(&env, &v.replay),
             "C19" => props::c19::replay(&env, &v.replay),
             _ => harness_error(&format!("no replayer for {cmd}")),
@@ -103,6 +107,7 @@ fn main() {
         match cmd {
             "C01" => props::c01::run(&env),
             "C02" => props::c02::run(&env),
+            "C03" => props::c03::run(&env),
             "C17" => props::c17::run(&env),
             "C19" => props::c19::run(&env),
             _ => harness_error(&format!("unknown command {cmd}")),
